@@ -148,20 +148,19 @@ Qed.
 (** *** (family scaling) the Fokker-Planck decrement main() hands to FokkerPlanckMap, over the definitions GENERATED
     from main() on every run (Gen/Gen_Scaling.v: [gen_e1] is the expression that reaches the `e1` parameter of the
     FokkerPlanckMap constructor, inlined down to the options; [gen_fs] = denominator of t_sync (results file),
-    [gen_steps] = denominator of the angle (RF maps), [gen_dt] = the `dt` of the wake field).
+    [gen_steps] = denominator of the angle (RF maps)).
     For every field, interpretation of the comparisons and option values. *)
 From Inovesa Require Model.ScalingOps Gen.Gen_Scaling Proofs.ScalingP.
 Module ScalingFamily.   (* imports and scopes stay local to this block *)
 Import ScalingOps Gen_Scaling ScalingP.
 Local Open Scope F_scope.
 
-(** e1 = 2/(f_s * t_damp * steps) = 2 dt/t_damp, t_damp being the DampingTime option when it is positive *)
+(** e1 = 2/(f_s * t_damp * steps), t_damp being the DampingTime option when it is positive *)
 Theorem C04_main_e1_formula :
   forall (K : Fld) (O : Ops K) (L : leaf -> K) (B : bleaf -> bool),
     o_lt O (L O_getDampingTime) 0 = false -> o_lt O 0 (L O_getDampingTime) = true ->
     gen_fs K O L B <> 0 -> gen_steps K O L B <> 0 -> L O_getDampingTime <> 0 ->
-    gen_e1 K O L B = two / (gen_fs K O L B * L O_getDampingTime * gen_steps K O L B) /\
-    gen_e1 K O L B = two * gen_dt K O L B / L O_getDampingTime.
+    gen_e1 K O L B = two / (gen_fs K O L B * L O_getDampingTime * gen_steps K O L B).
 Proof. exact e1_formula. Qed.
 Print Assumptions C04_main_e1_formula.
 
@@ -183,14 +182,6 @@ Theorem C04_main_e1_off :
     o_lt O (L O_getDampingTime) 0 = false -> o_lt O 0 (L O_getDampingTime) = false -> gen_e1 K O L B = 0.
 Proof. exact e1_off. Qed.
 Print Assumptions C04_main_e1_off.
-
-(** the time step behind it: dt = 1/(f_s * steps), revolutionpart = f_rev * dt for every consumer *)
-Theorem C04_main_dt_formula :
-  forall (K : Fld) (O : Ops K) (L : leaf -> K) (B : bleaf -> bool),
-    gen_fs K O L B <> 0 -> gen_steps K O L B <> 0 ->
-    gen_dt K O L B = 1 / (gen_fs K O L B * gen_steps K O L B).
-Proof. exact dt_formula. Qed.
-Print Assumptions C04_main_dt_formula.
 
 (** non-vacuity over Qc: f_s = 8000, t_damp = 1/100, StepsPerTs = 50 -> e1 = 2/4000 *)
 Example C04_main_e1_example :
